@@ -8,7 +8,7 @@ TRACE_MODULE = "PipelineTrace"
 TRACE_CFG = "PipelineTrace.cfg"
 RULE = ("random exact-domain UFOs (3-7 glyphs, nested / mirrored / sheared / scaled components, line + cubic + quadratic "
         "segments, k/4 coordinates and advances with .5 ties of both signs) x roundTolerance {None, 0, 0.25, 0.5} x cffVersion "
-        "{1, 2} x {defcon, ufoLib2}; compiled with compileOTF, saved, reloaded, drawn with RecordingPen; non-trivial = the "
+        "{1, 2} x {defcon, ufoLib2} (one case in six with a skipExportGlyphs list); compiled with compileOTF, saved, reloaded, drawn with RecordingPen; non-trivial = the "
         "font has at least one composite glyph; distinct by source digest + options; plus (one case in five) families of "
         "2-3 compatible masters compiled with compileInterpolatableOTFsFromDS in which a composite glyph (incl. mirrored and "
         "nested components) is drawn as plain contours in some masters and composed in the others -- every master is judged "
@@ -40,8 +40,19 @@ def cases(tier, seed):
         kwargs = {"roundTolerance": tol, "cffVersion": rng.choice([1, 2]), "optimizeCFF": rng.choice([0, 1, 2])}
         if tol is None:
             del kwargs["roundTolerance"]
+        ufo_lib = {}
+        if k % 6 == 1:
+            # some glyphs are not exported: what references them (also through mirrored components) still has to draw them
+            names = sorted(glyphs)
+            skip = gen.subset(rng, names, 0.3)
+            if len(skip) == len(names):
+                skip = skip[:-1]
+            if rng.random() < 0.5:
+                kwargs["skipExportGlyphs"] = skip
+            else:
+                ufo_lib = {"public.skipExportGlyphs": skip}
         out.append({"cid": f"c01-{seed}-{k}", "lib": rng.choice(["ufoLib2", "defcon"]), "flavor": "cff",
-                    "ufo": {"glyphs": glyphs, "info": {"unitsPerEm": 1000, "ascender": 800, "descender": -200}},
+                    "ufo": {"glyphs": glyphs, "info": {"unitsPerEm": 1000, "ascender": 800, "descender": -200}, "lib": ufo_lib},
                     "kwargs": kwargs})
     return out
 
